@@ -6,6 +6,8 @@ import BV.Drive.Util
       the book-keeping of the encoder right after `set_custom_dictionary(size, gen_dict(seed, size))` on a fresh
       state with default parameters except lgwin/quality (both may be out of range: they are sanitised):
       `ok ip= lf= lp= pb= pb2= cat= app= ud= lgwin= lgblock= q= pos= mask= cur= dlen= tail= rfnv= dfnv= rec=` | `panic`
+    dict decrun <wbits> <d> <seed> <mlen> <B<hex>|C<dist>,<len> …>
+      decoder copy path on a single last meta-block: `ok <output hex>` | `panic`
     dict dec <wbits> <d> <seed> <rbits> <P1,P2,…>
       decoder hand model: `deff= mbd= ctx1= ctx2= max=<max_distance after visiting the positions>`
 -/
@@ -45,6 +47,18 @@ def handle (args : List String) : String :=
     let D : Dec := ⟨natArg wbits, natArg d, dictGen (natArg seed)⟩
     let ps := if ps = "-" then [] else (ps.splitOn ",").map natArg
     s!"deff={D.dEff} mbd={D.mbd} ctx1={D.ctx1 (natArg rbits)} ctx2={D.ctx2 (natArg rbits)} max={D.runMax 0 ps}"
+  | "decrun" :: wbits :: d :: seed :: mlen :: toks =>
+    let D : Dec := ⟨natArg wbits, natArg d, dictGen (natArg seed)⟩
+    let cmds : List DecCmd := toks.filterMap fun t =>
+      if t.startsWith "B" then some (DecCmd.bytes (hexToBytes (t.drop 1).toString))
+      else if t.startsWith "C" then
+        match (t.drop 1).toString.splitOn "," with
+        | [a, b] => some (DecCmd.copy (natArg a) (natArg b))
+        | _ => none
+      else none
+    match decOutput D (natArg mlen) cmds with
+    | none => "panic"
+    | some out => s!"ok {bytesToHex out}"
   | _ => "bad-op"
 
 end BV.Drive.Dict
